@@ -193,6 +193,10 @@ def recomputed_from_new_nodes(ctx):
                         if i3 is None:
                             break
                         if i3.kind == "call" and i3.args:
+                            # only views of the same sequence are followed (not splice/drain/collect, which hand out OTHER nodes)
+                            if (i3.callee or "").split("::")[-1] not in ("iter", "deref", "deref_mut", "as_slice", "as_ref", "borrow",
+                                                                           "into_iter", "clone", "to_vec", "copied", "cloned"):
+                                break
                             cur = i3.args[0]
                         elif i3.kind == "assign" and i3.rv_kind() == "ref":
                             from ..facts import Operand
@@ -320,11 +324,12 @@ def tour_cache_rules(ctx, tag="R3"):
 def cycle_update_rules(ctx):
     """batched cycle updates and neighbour lookups (shared with C04, C10, C11, C15)"""
     from .C10 import cycles_follow_vehicles
-    from .C15 import neighbour_wiring, counter_plain_sum
+    from .C15 import neighbour_wiring, counter_plain_sum, three_opt_reconnection
     before = len(ctx.obligations)
     cycles_follow_vehicles(ctx, None)
     ctx.obligations[before:] = [o for o in ctx.obligations[before:] if "batched-updates" in o.id]
     neighbour_wiring(ctx, "R3")
+    three_opt_reconnection(ctx, "R3")
     counter_plain_sum(ctx, common.sites_of(ctx, TRANSITION))
 
 
